@@ -26,7 +26,7 @@ func TestMain(m *testing.M) {
 		"generated repositories of 1..40 records (unique IDs anywhere in 0..0xFFFE in arbitrary order, first ID zero or not, types full/compact/event-only/FRU locator/MC locator/OEM, "+
 			"Full Sensor Records with generated fields and ID strings in all four encodings incl. empty, ID string <= 16 bytes) retrieved by RetrieveSDRRepository over a real session; "+
 			"faults injected before the k-th Get SDR of the walk: reservation cancelled, or repository modified (add / delete / replace with timestamps advanced and the reservation "+
-			"cancelled, or an append / delete / replace that keeps the reservation). Oracle: returned map == {record's own ID -> reference decoding} of the Full Sensor Records of the single repository "+
+			"cancelled, or an append / delete / replace that keeps the reservation, or an add / delete / replace that cancels the reservation within the same timestamp second). Oracle: returned map == {record's own ID -> reference decoding} of the Full Sensor Records of the single repository "+
 			"version current during the final successful walk. Non-trivial = >= 2 record types, >= 1 FSR, and first ID != 0 or a fault injected; distinct by repository + fault")
 	ev.Assume("each retry of the retrieval sleeps 0.25-0.75 s in the library's inline exponential back-off, so fault cases run concurrently",
 		"BMCs that change content without touching timestamps or reservations are out of scope")
@@ -213,7 +213,7 @@ func summary(r Repo) []string {
 type Fault struct {
 	RepoSeed int
 	K        int    // before the K-th Get SDR
-	Kind     string // cancel, add, delete, replace, append-keep, delete-keep, replace-keep
+	Kind     string // cancel, add, delete, replace (timestamps advance, reservation lost), *-keep (timestamps advance, reservation kept), *-sametime (reservation lost, timestamps unchanged)
 	// an optional second fault, before the K2-th Get SDR (counted over the whole
 	// retrieval, so it normally hits the repeated walk)
 	K2    int
@@ -241,7 +241,7 @@ func mutateRepo(r Repo, f Fault) Repo {
 		extra.Raw[0], extra.Raw[1] = byte(extra.ID), byte(extra.ID>>8)
 	}
 	switch f.Kind {
-	case "add":
+	case "add", "add-sametime":
 		pos := (f.K * 7) % (len(n.Recs) + 1)
 		if pos == 0 && n.Recs[0].ID == 0 {
 			pos = 1 // ID 0x0000 may only be carried by the first record
@@ -249,12 +249,12 @@ func mutateRepo(r Repo, f Fault) Repo {
 		n.Recs = append(n.Recs[:pos], append([]Rec{extra}, n.Recs[pos:]...)...)
 	case "append-keep":
 		n.Recs = append(n.Recs, extra)
-	case "delete", "delete-keep":
+	case "delete", "delete-keep", "delete-sametime":
 		if len(n.Recs) > 1 {
 			pos := (f.K * 5) % len(n.Recs)
 			n.Recs = append(n.Recs[:pos], n.Recs[pos+1:]...)
 		}
-	case "replace", "replace-keep":
+	case "replace", "replace-keep", "replace-sametime":
 		pos := (f.K * 3) % len(n.Recs)
 		extra.ID = n.Recs[pos].ID
 		if extra.FSR != nil {
@@ -290,6 +290,9 @@ func runFault(f Fault) (msg string, nontrivial string) {
 			rp.Records = append(rp.Records, simbmc.Record{ID: rec.ID, Bytes: rec.Raw})
 		}
 		switch kind {
+		case "add-sametime", "delete-sametime", "replace-sametime":
+			// a modification within the same second as the previous one: the
+			// one-second timestamps do not move, only the reservation is lost
 		case "delete", "delete-keep":
 			rp.EraseTS += 5
 		case "replace", "replace-keep":
@@ -350,7 +353,7 @@ func walkLength(repoSeed int) int {
 }
 
 func TestFaults(t *testing.T) {
-	kinds := []string{"cancel", "add", "delete", "replace", "append-keep", "delete-keep", "replace-keep"}
+	kinds := []string{"cancel", "add", "delete", "replace", "append-keep", "delete-keep", "replace-keep", "add-sametime", "delete-sametime", "replace-sametime"}
 	var faults []Fault
 	repos := ev.Pick(12, 60)
 	for i := 0; i < repos; i++ {
@@ -368,8 +371,8 @@ func TestFaults(t *testing.T) {
 			}
 		}
 	}
-	if !ev.Thorough() && len(faults) > 220 {
-		faults = faults[:220]
+	if !ev.Thorough() && len(faults) > 330 {
+		faults = faults[:330]
 	}
 	// double faults: a second event during the repeated walk
 	for i := 0; i < ev.Pick(6, 40); i++ {
@@ -429,6 +432,6 @@ func TestFaults(t *testing.T) {
 }
 
 func TestCoverage(t *testing.T) {
-	ev.RequireLabels(t, 1, "faults-complete", "fault:cancel", "fault:add", "fault:delete", "fault:replace", "fault:append-keep", "fault:delete-keep", "fault:replace-keep", "double-fault",
+	ev.RequireLabels(t, 1, "faults-complete", "fault:cancel", "fault:add", "fault:delete", "fault:replace", "fault:append-keep", "fault:delete-keep", "fault:replace-keep", "fault:add-sametime", "fault:delete-sametime", "fault:replace-sametime", "double-fault",
 		"idstring:enc0:empty=true", "idstring:enc3:empty=true", "idstring:enc1:empty=false", "idstring:enc2:empty=false")
 }
